@@ -53,24 +53,27 @@ func hsScens(c *hk.Ctx) []hsScen {
 	for _, st := range []string{"none", "postHold", "postReset", "http500", "errorReply", "garbage", "initializedReset"} {
 		out = append(out, hsScen{T: "streamJson", Step: st, Close: "after"})
 	}
-	out = append(out, hsScen{T: "streamJson", Step: "none", Close: "after", GetSSE: true},
+	out = append(out, hsScen{T: "streamJson", Step: "none", Close: "after", GetSSE: true}, hsScen{T: "streamJson", Step: "getHold", Close: "after", GetSSE: true},
 		hsScen{T: "streamJson", Step: "postHold", Close: "during", GetSSE: true}, hsScen{T: "streamJson", Step: "postHold", Close: "during"})
 	for _, st := range []string{"none", "endpointStall", "postStall", "postHold", "postReset", "http500", "errorReply", "garbage", "initializedRefused", "initializedReset"} {
 		out = append(out, hsScen{T: "sse", Step: st, Close: "after"})
 	}
-	out = append(out, hsScen{T: "sse", Step: "postStall", Close: "during"}, hsScen{T: "sse", Step: "postHold", Close: "during"})
+	out = append(out, hsScen{T: "sse", Step: "postStall", Close: "during"}, hsScen{T: "sse", Step: "postHold", Close: "during"},
+		hsScen{T: "sse", Step: "getHold", Close: "during"}, hsScen{T: "sse", Step: "getHold", Close: "after"}, hsScen{T: "sse", Step: "endpointStall", Close: "during"})
 	for _, st := range []string{"none", "silent", "errorReply", "garbage", "exit"} {
 		out = append(out, hsScen{T: "stdio", Step: st, Close: "after"})
 	}
-	out = append(out, hsScen{T: "stdio", Step: "silent", Close: "during"})
+	out = append(out, hsScen{T: "stdio", Step: "silent", Close: "during"}, hsScen{T: "stdio", Step: "noread", Close: "during"}, hsScen{T: "stdio", Step: "noread", Close: "after"})
 	return out
 }
 
 // stalls: the steps at which Initialize can only end through its caller's context
 func (s hsScen) stalls() bool {
 	switch s.Step {
-	case "endpointStall", "postStall", "postHold", "silent":
+	case "endpointStall", "postStall", "postHold", "silent", "noread":
 		return true
+	case "getHold":
+		return s.T == "sse"
 	}
 	return false
 }
@@ -129,6 +132,7 @@ func runHandshake(sc hsScen, dir string) (hsObs, []problem) {
 		}
 	}
 	closed := true
+	var closedAt time.Time
 	if sc.Close == "during" {
 		// Close() while Initialize is in flight: once the initialize request is at the peer (held / accepted and not answered)
 		arrived := false
@@ -148,6 +152,29 @@ func runHandshake(sc hsScen, dir string) (hsObs, []problem) {
 					body := fmt.Sprintf(`{"jsonrpc":"2.0","id":%s,"result":%s}`, string(a.id), initResult)
 					writeAll(a.conn, fmt.Sprintf("HTTP/1.1 200 OK\r\nContent-Type: application/json\r\nMcp-Session-Id: %s\r\nConnection: close\r\nContent-Length: %d\r\n\r\n%s", p.sid, len(body), body))
 				}
+			case <-time.After(5 * time.Second):
+			}
+		case sc.Step == "getHold" || sc.Step == "endpointStall":
+			// the event stream's request is at the peer (no headers yet / headers and no endpoint event): Close(); the peer stays silent
+			select {
+			case <-p.streamUp:
+				arrived = true
+				if sc.Step == "endpointStall" {
+					// the headers are out: wait until the client has taken them (its stream reader runs) and waits for the endpoint event
+					for dl := time.Now().Add(settleCeiling); time.Now().Before(dl); time.Sleep(200 * time.Microsecond) {
+						found := false
+						for k := range takeCensus().diffLib(base) {
+							if strings.Contains(k, "readSSE") {
+								found = true
+							}
+						}
+						if found {
+							break
+						}
+					}
+				}
+				closedAt = time.Now()
+				closed = bounded(closeCeiling, func() { cl.Close() })
 			case <-time.After(5 * time.Second):
 			}
 		default: // legacy postStall: 202 given, nothing on the stream; the POST's return is not visible: wait for the pending entry
@@ -174,9 +201,17 @@ func runHandshake(sc hsScen, dir string) (hsObs, []problem) {
 			p.shutdown()
 			return obs, []problem{{fp: "calls:harness:handshake_barrier", what: "the initialize request did not reach the peer"}}
 		}
-		waitInit(answerHangMax)
+		if !closedAt.IsZero() {
+			waitInit(latencyCeiling + 200*time.Millisecond) // "promptly" after the Close; the handshake's own context ends later (hsCeiling)
+		} else {
+			waitInit(answerHangMax)
+		}
 	} else {
-		waitInit(hsCeiling + 2*time.Second)
+		if sc.stalls() {
+			waitInit(300*time.Millisecond + latencyCeiling + 200*time.Millisecond) // the caller's deadline, then "promptly"
+		} else {
+			waitInit(hsCeiling + 2*time.Second)
+		}
 		if ir != nil && ir.err == nil && sc.GetSSE {
 			// the listening stream the successful handshake starts asynchronously: wait until it is at the peer
 			select {
@@ -187,6 +222,13 @@ func runHandshake(sc hsScen, dir string) (hsObs, []problem) {
 		}
 		closed = bounded(closeCeiling, func() { cl.Close() })
 	}
+	if ir == nil && sc.Close == "during" {
+		cancel() // (the census is about what Close() left: the abandoned Initialize is given its context's end first)
+		select {
+		case <-done:
+		case <-time.After(time.Second):
+		}
+	}
 	switch {
 	case ir == nil:
 		obs.Init = "hung"
@@ -194,9 +236,25 @@ func runHandshake(sc hsScen, dir string) (hsObs, []problem) {
 			buf := make([]byte, 1<<20)
 			os.Stderr.Write(buf[:runtime.Stack(buf, true)])
 		}
-		probs = append(probs, problem{fp: "calls:" + tag + ":initialize_never_returns", what: "Initialize had not returned (its context ended / Close() was called / the peer answered) when it was abandoned", observed: map[string]any{"step": sc.Step, "close": sc.Close}})
+		if sc.T == "sse" && sc.Step == "endpointStall" && sc.Close == "during" {
+			// start() waits for the endpoint event in a select over {endpoint, caller's context, 60 s}: Close() is none of them
+			probs = append(probs, problem{fp: "calls:sse:close_does_not_end_initialize_before_endpoint_event", what: "legacy SSE client: the event stream is up (headers received) and no endpoint event has come; Close() from another goroutine ends the stream and its reader, but Initialize keeps waiting (start() selects over the endpoint event, the caller's context and a 60 s timer only) until the caller's context ends",
+				observed: map[string]any{"waited_ms_after_close": (latencyCeiling + 200*time.Millisecond).Milliseconds()}})
+		} else if sc.T == "sse" && sc.Step == "getHold" && sc.Close == "after" {
+			// the stream request of the legacy SSE handshake is made with a context detached from the caller's: while the server
+			// has accepted GET /sse and sends no response headers, only Close() ends the Initialize
+			probs = append(probs, problem{fp: "calls:sse:initialize_ignores_context_before_stream_headers", what: "legacy SSE client: the server has accepted GET /sse and sends no response headers; the caller's deadline passes and Initialize does not return (start() sends the stream request with context.WithoutCancel(ctx) and looks at ctx only after the headers); Close() from another goroutine releases it",
+				observed: map[string]any{"deadline_ms": 300, "waited_ms_after_deadline": (latencyCeiling + 200*time.Millisecond).Milliseconds()}})
+		} else {
+			probs = append(probs, problem{fp: "calls:" + tag + ":initialize_never_returns", what: "Initialize had not returned (its context ended / Close() was called / the peer answered) when it was abandoned", observed: map[string]any{"step": sc.Step, "close": sc.Close}})
+		}
 	case ir.err != nil:
 		obs.Init = "err"
+		if !closedAt.IsZero() {
+			if lat := ir.at.Sub(closedAt); lat > latencyCeiling {
+				probs = append(probs, problem{fp: "calls:" + tag + ":initialize_returns_late_after_close", what: "Close() was called while Initialize was in flight (the peer stalls): Initialize returned its error later than the ceiling", observed: map[string]any{"step": sc.Step, "latency_ms": lat.Milliseconds()}})
+			}
+		}
 	default:
 		obs.Init = "ok"
 	}
@@ -260,6 +318,8 @@ func runHandshakeStdio(sc hsScen, dir string) (hsObs, []problem) {
 	switch sc.Step {
 	case "silent":
 		cs.Init = "silent"
+	case "noread":
+		cs.Init = "noread"
 	case "errorReply":
 		cs.Init = "error"
 	case "garbage":
@@ -402,7 +462,13 @@ func runHandshakes(c *hk.Ctx) {
 		if again {
 			recurred[sc.T]++
 		}
-		for k := 0; k < 3 && len(persistent) > 0; k++ {
+		reruns := 3
+		for fp := range persistent {
+			if strings.Contains(fp, "initialize_never_returns") || strings.Contains(fp, "initialize_ignores") || strings.Contains(fp, "close_does_not_end_initialize") { // a handshake that does not return: one re-run (each costs its ceiling)
+				reruns = 1
+			}
+		}
+		for k := 0; k < reruns && len(persistent) > 0; k++ {
 			o2, p2 := runHandshake(sc, c.Dir)
 			seen := map[string]bool{}
 			for _, p := range p2 {
